@@ -233,6 +233,21 @@ class Battery:
             self.stat_forms(ev, es, ev.tail_size, {e: len(p.tail[e]) for e in es}, "edges.tail_size")
             self.stat_forms(ev, es, ev.head_order, {e: len(p.head[e]) - 1 for e in es}, "edges.head_order")
             self.stat_forms(ev, es, ev.tail_order, {e: len(p.tail[e]) - 1 for e in es}, "edges.tail_order")
+            # degree= option of the directed edge statistics (a node in both head and tail has ONE degree per edge)
+            hsd = {e: sum(1 for n in p.head[e] if deg[n] == dgr) for e in es}
+            tsd = {e: sum(1 for n in p.tail[e] if deg[n] == dgr) for e in es}
+            self.stat_forms(ev, es, ev.head_size(degree=dgr), hsd, "edges.head_size(degree)")
+            self.stat_forms(ev, es, ev.tail_size(degree=dgr), tsd, "edges.tail_size(degree)")
+            self.stat_forms(ev, es, ev.head_order(degree=dgr), {e: hsd[e] - 1 for e in es}, "edges.head_order(degree)")
+            self.stat_forms(ev, es, ev.tail_order(degree=dgr), {e: tsd[e] - 1 for e in es}, "edges.tail_order(degree)")
+            try:
+                diw = {n: sum(p.eattr[e].get(w, 1) for e in p.inm[n]) for n in ns}
+                dow = {n: sum(p.eattr[e].get(w, 1) for e in p.outm[n] if size[e] == k + 1) for n in ns}
+                if all(isinstance(v, (int, float)) for v in list(diw.values()) + list(dow.values())):
+                    self.stat_forms(nv, ns, nv.in_degree(weight=w), diw, "nodes.in_degree(weight)")
+                    self.stat_forms(nv, ns, nv.out_degree(order=k, weight=w), dow, "nodes.out_degree(order,weight)")
+            except TypeError:
+                pass
             ok(all(n in p.tail[e] for n in ns for e in p.outm[n]) and all(n in p.head[e] for n in ns for e in p.inm[n])
                and sum(ind.values()) == sum(len(h) for h in p.head.values()) and sum(outd.values()) == sum(len(t) for t in p.tail.values()),
                "directed-degrees", "incidence-mismatch", "in/out degrees do not match head/tail incidence", "assert:directed-degrees")
